@@ -2,6 +2,16 @@
 the evidence texts (rule, assumptions)."""
 
 PLAN = {
+    "C14": {
+        "quick": [
+            {"kind": "enum", "test": "TestEnumC14", "timeout": 900},
+            {"kind": "rapid", "test": "TestC14Fwd", "checks": 50000},
+        ],
+        "thorough": [
+            {"kind": "enum", "test": "TestEnumC14", "timeout": 1800},
+            {"kind": "rapid", "test": "TestC14Fwd", "checks": 300000, "shards": 16},
+        ],
+    },
     "C02": {
         "quick": [
             {"kind": "rapid", "test": "TestC02Pair", "checks": 100000},
@@ -87,6 +97,7 @@ PLAN = {
 }
 
 RULES = {
+    "C14": "enumeration: the complete product 32 flag subsets x 8 widths {absent,1,7,12,1000,*=-7,*=0,*=5} x 7 precisions {absent,'.',0,1,5,*=0,*=3} x 56 verbs (all ASCII letters, e-acute, cross, start marker, invalid byte) x 13 operand kinds (1.4M evaluations), each under fmt's State and under redact's printer; rapid: directives outside the grid (widths 1..300, star values -40..40, precisions 0..40). Non-trivial = any directive other than bare %v. Distinct = distinct (directive, star values, operand kind).",
     "C02": "rapid: a shape (route x format x operand tree x registered types x optional error hook) with two instantiations A, B of its unsafe leaves, B derived from A by construction: every non-LF rune of an unsafe string is replaced by a freshly drawn one (markers, multi-byte runes included), run lengths may change when the consuming directive has no width/precision; byte slices and StringBuilder payloads keep their encoded length; bools, floats, complex always redrawn; integers redrawn in structured formats (zero-ness kept: it is 'emptiness' under a zero precision; shared under %c, which can print a line feed) and shared in chaotic formats (any may feed a '*'); map keys keep their relative order; public parts (literals, safe types, Safe()-wrapped, registered, star operands) are shared and free of pointers. Oracle: Redact(A) == Redact(B) byte for byte, both panic or neither, and a private-use rune tagged onto A's unsafe leaves never survives redaction. Non-trivial = the two unredacted outputs differ and the case is not bare top-level %v of basic values. Distinct = distinct specs (64-bit fingerprint). The class histogram counts (operand kind x verb) pairs.",
     "C04": "rapid: route (Sprint, Sprintf, Fprint, Fprintf) x format (70% structured, 30% chaotic; every verb incl. invalid and non-ASCII ones, flags, width, precision, '*' with negative/zero/too large/non-int operands, argument indexes in chaotic formats, missing and extra operands) x operands from the fmt-compatible universe (basic and named kinds, containers, pointers, nil and typed nil, reflect.Value, Stringer/error/Formatter/GoStringer implementations incl. panicking, nil-receiver and scripted ones, SafeValue-marked and registered types), valid UTF-8 text with markers; excluded as the property says: %w, '0' with '-'. Oracle: strip(redact output) == fmt output with markers replaced by '?'; panics iff fmt panics. Non-trivial = anything beyond bare %v of a basic value (flag, width, precision, other verb, container, method, or an fmt diagnostic in the output). Distinct = distinct specs (64-bit fingerprint).",
     "C01": "rapid: (a) print cases = route (Sprint, Sprintf, Fprint, Fprintf, HelperForErrorf, StringBuilder.Print/Printf incl. RedactableBytes, Sprintfn Print/Printf) x format (65% structured directives with flags/width/precision/star/odd and non-ASCII verbs, 35% chaotic byte soup) x operands from the full value universe (plain kinds, containers, pointers, Stringer/error/Formatter/GoStringer/SafeFormatter/SafeMessager programs incl. panicking ones and formatters that discover the SafePrinter, Safe/Unsafe wrappers, library-produced RedactableString/Bytes, StringBuilders) x configuration (registered safe types, scripted error hook), payloads over the text or the byte alphabet (markers, single marker bytes, other lead bytes, FF); (b) writer-op histories of up to 12 ops in 12 contexts (StringBuilder, RedactableBytes, ManualBuffer with SetMode/raw fragments, Sprintfn, SafeFormat under a random directive / under Unsafe / under Safe / in a slice / in a struct, printing a StringBuilder, EscapeBytes); (c) Join/JoinTo over library-produced redactables. Oracle: well-formedness predicate on every output + escape invariance (replacing every marker in string payloads and literals by '?' must not change the output; only for %v/%s/%q directives and address-free outputs). Non-trivial = some payload, literal, panic message, map key or verb contains a marker or partial-marker byte (and the call did not end in a propagating panic). Distinct = distinct specs by 64-bit fingerprint.",
@@ -112,6 +123,12 @@ HOOK_COMMITS = ["cf350cc"]
 NOT_APPLICABLE = {}
 
 CLAIMS = {
+    "C14": {
+        "text": "The property's own finite quantifier is enumerated completely (1.4M directive x operand combinations, 13 s): a probe Formatter records the state it is called with, calls MakeFormat and prints a second probe with the returned format; the two recorded (flags, width, precision, verb) tuples must be equal and justV must be reported exactly for bare %v; Safe(x), Unsafe(x) and a forwarding formatter must print exactly like x under fmt, and the forwarding formatter like the direct call under redact. Exhaustive over the stated product (strictly stronger than sampling), plus rapid sampling outside the grid.",
+        "design_ref": "DESIGN.md §4.14",
+        "note": "Tuples are compared with the numeric width/precision masked by their ok flag; a width that is present and zero (only reachable through '*') cannot be written in a format string and is treated as absent. Verbs T, p, w are never dispatched to formatters (checked: the probe is not called).",
+        "technique": "exhaustive enumeration of the directive product with a round-trip oracle and a differential oracle (wrapper vs. direct call)",
+    },
     "C02": {
         "text": "Two-run (hyper-property) check: for generated shapes, two instantiations of the unsafe leaves must give byte-identical redacted outputs. This is the direct executable form of non-interference and is sensitive to every (kind, verb) classification site of the forked fmt (a missing unsafe switch shows as soon as the two instantiations differ in that leaf). Exploration; 100k pairs per quick run, 6.4M per thorough run.",
         "design_ref": "DESIGN.md §4.2",
